@@ -466,7 +466,7 @@ pub fn c02_blanket_array_n5() {
 
 // @verif prop=C02 tier=quick fl=f0 role=inherent/matrix t=900 mem=12
 #[cfg_attr(kani, kani::proof)]
-#[cfg_attr(kani, kani::unwind(8))]
+#[cfg_attr(kani, kani::unwind(10))]
 pub fn c02_inherent_matrix_n3() {
     inherent::<AdjacencyMatrix, 3>(1);
 }
@@ -494,21 +494,21 @@ pub fn c02_inherent_adjacency_list_n3_p4() {
     inherent::<AdjacencyList, 3>(4);
 }
 
-// @verif prop=C02 tier=quick fl=f1 feat=map4 role=inherent/adjacency-map t=900 mem=12
+// @verif prop=C02 tier=quick fl=f1 feat=map4 role=inherent/adjacency-map t=1500 mem=20
 #[cfg_attr(kani, kani::proof)]
 #[cfg_attr(kani, kani::unwind(10))]
 pub fn c02_inherent_adjacency_map_n3() {
     inherent::<AdjacencyMap, 3>(1);
 }
 
-// @verif prop=C02 tier=quick fl=f1 feat=map4 role=noncontiguous/adjacency-map t=900 mem=12
+// @verif prop=C02 tier=quick fl=f1 feat=map4 role=noncontiguous/adjacency-map t=1500 mem=24
 #[cfg_attr(kani, kani::proof)]
 #[cfg_attr(kani, kani::unwind(10))]
 pub fn c02_map_noncontiguous() {
     map_noncontiguous();
 }
 
-// @verif prop=C02 tier=quick fl=f1 feat=map4 role=inherent/weighted t=900 mem=12
+// @verif prop=C02 tier=quick fl=f1 feat=map4 role=inherent/weighted t=1500 mem=20
 #[cfg_attr(kani, kani::proof)]
 #[cfg_attr(kani, kani::unwind(10))]
 pub fn c02_weighted_n3() {
@@ -524,7 +524,7 @@ pub fn c02_derived_edge_list_n3() {
 
 // @verif prop=C02 tier=quick fl=f0 role=derived/matrix t=900 mem=12
 #[cfg_attr(kani, kani::proof)]
-#[cfg_attr(kani, kani::unwind(8))]
+#[cfg_attr(kani, kani::unwind(10))]
 pub fn c02_derived_matrix_n3() {
     derived_rep::<AdjacencyMatrix, 3>();
 }
@@ -545,7 +545,7 @@ pub fn c02_derived_adjacency_map_n3() {
 
 // @verif prop=C02 tier=thorough fl=f0 role=inherent/matrix t=3600 mem=24
 #[cfg_attr(kani, kani::proof)]
-#[cfg_attr(kani, kani::unwind(8))]
+#[cfg_attr(kani, kani::unwind(16))]
 pub fn c02_inherent_matrix_n4() {
     inherent::<AdjacencyMatrix, 4>(1);
 }
